@@ -1,24 +1,27 @@
 #!/usr/bin/env bash
 # libFuzzer campaign over the C09 decoder targets (thorough tier). Exit 0 = no crash, 1 = a crash that also
 # reproduces through `dv replay` (release build, the same oracle), 2 = could not run (inconclusive).
-# Stats are written to /verif/fuzz/last-run.json for the evidence file.
+# Stats are written to "$FUZZ/last-run.json" for the evidence file.
 set -u
-cd /verif/fuzz
+cd "$(dirname "$0")"
+FUZZ="$(pwd -P)"
+VERIF="$(dirname "$FUZZ")"
+unset CARGO_TARGET_DIR
 export CARGO_NET_OFFLINE=true
 SEED="${VERIF_SEED:-1}"; [ "$SEED" = "0" ] && SEED=1
 RUNS="${DV_FUZZ_RUNS:-3000000}"
 WORK="$(mktemp -d /dev/shm/dv-fuzz.XXXXXX 2>/dev/null || mktemp -d)"
 trap 'rm -rf "$WORK"' EXIT
 mkdir -p "$WORK/corpus" "$WORK/artifacts"
-/verif/harness/target/release/dv fuzz-seeds "$WORK/corpus" >/dev/null || { echo "fuzz: cannot write seeds" >&2; exit 2; }
-if ! cargo +nightly fuzz build --fuzz-dir /verif/fuzz decoders >"$WORK/build.log" 2>&1; then
+"$VERIF/harness/target/release/dv" fuzz-seeds "$WORK/corpus" >/dev/null || { echo "fuzz: cannot write seeds" >&2; exit 2; }
+if ! cargo +nightly fuzz build --fuzz-dir "$FUZZ" decoders >"$WORK/build.log" 2>&1; then
   tail -30 "$WORK/build.log" >&2
   echo "fuzz: build failed (inconclusive; the proptest byte generators of the quick tier still ran)" >&2
-  echo '{"ran": false, "reason": "cargo fuzz build failed"}' > /verif/fuzz/last-run.json
+  echo '{"ran": false, "reason": "cargo fuzz build failed"}' > "$FUZZ/last-run.json"
   exit 2
 fi
 start=$(date +%s)
-cargo +nightly fuzz run --fuzz-dir /verif/fuzz decoders "$WORK/corpus" -- \
+cargo +nightly fuzz run --fuzz-dir "$FUZZ" decoders "$WORK/corpus" -- \
    -runs="$RUNS" -seed="$SEED" -len_control=0 -max_len=2048 -artifact_prefix="$WORK/artifacts/" -print_final_stats=1 \
    >"$WORK/run.log" 2>&1
 rc=$?
@@ -29,15 +32,15 @@ crash=$(ls "$WORK/artifacts" 2>/dev/null | head -1)
 echo "fuzz: rc=$rc execs=${execs:-0} corpus=$corpus wall=$((end-start))s crash=${crash:-none}"
 status=0
 if [ -n "${crash:-}" ]; then
-  mkdir -p /verif/failures/C09
-  out="/verif/failures/C09/fuzz-$(basename "$crash").json"
+  mkdir -p "$VERIF/failures/C09"
+  out="$VERIF/failures/C09/fuzz-$(basename "$crash").json"
   python3 - "$WORK/artifacts/$crash" "$out" <<'PY'
 import sys, json
 data = open(sys.argv[1], 'rb').read()
 case = {"Hostile": {"target": (data[0] % 10) if data else 0, "valid_seed": None, "bytes": data[1:].hex(), "mutations": []}}
 json.dump({"property": "C09", "note": "libFuzzer artifact", "case": case}, open(sys.argv[2], 'w'))
 PY
-  if /verif/harness/target/release/dv replay C09 "$out" | grep -q "^VIOLATION"; then
+  if "$VERIF/harness/target/release/dv" replay C09 "$out" | grep -q "^VIOLATION"; then
     tail -5 "$WORK/run.log"
     echo "VIOLATION property=C09 replay=$out"
     status=1
@@ -49,5 +52,5 @@ elif [ $rc -ne 0 ]; then
   status=2
 fi
 printf '{"ran": true, "engine": "libFuzzer via cargo-fuzz", "runs_requested": %s, "executions": %s, "seed": %s, "final_corpus_files": %s, "wall_s": %s, "crash": "%s"}\n' \
-  "$RUNS" "${execs:-0}" "$SEED" "$corpus" "$((end-start))" "${crash:-}" > /verif/fuzz/last-run.json
+  "$RUNS" "${execs:-0}" "$SEED" "$corpus" "$((end-start))" "${crash:-}" > "$FUZZ/last-run.json"
 exit $status
